@@ -2,6 +2,7 @@
 From Coq Require Import Reals ZArith String List Bool Lra.
 Require Import Py.PyAst Py.PyVal Py.PySem Py.XLemmas Py.Interp.
 Require Import C10.Src C10.Model.
+Require C10.Wiring.
 Import ListNotations.
 Open Scope string_scope.
 Open Scope R_scope.
@@ -71,3 +72,21 @@ Example C10_shape_example : shaped [[0; 1; 2]; [10; 20]] (Node [Node [Leaf 1; Le
   /\ node_of [[0; 1; 2]; [10; 20]] [1%nat; 0%nat] = Some [1; 10]
   /\ grid_at (Node [Node [Leaf 1; Leaf 2]; Node [Leaf 3; Leaf 4]; Node [Leaf 5; Leaf 6]]) [1%nat; 0%nat] = Some 3.
 Proof. cbn. repeat split; try lra; auto with arith; repeat constructor; cbn; repeat split; try lra; auto with arith. Qed.
+
+(* the scaling REACHES the data likelihood, whatever the likelihood type (the lens object below has no likelihood_type attribute, so the
+   hand-over cannot look at it): log_likelihood_single evaluates kin_scaling - here an arbitrary function K - at the realised (drawn and
+   merged) parameters and hands the result to the data likelihood as its kin_scaling argument; nothing else decides whether the grid is used *)
+Theorem C10_scaling_reaches_the_data_likelihood : forall (D : list val -> list (string * val) -> R) (K : val -> val)
+    (ifu : bool) (ddt dd dl beta lam lifu al be g x y kap mu : R) (rg : nat -> R) (cu : nat),
+  let l := (if ifu then lifu else lam) + al * x + be * y in
+  1/10000 <= l * (1 - kap) ->
+  let args := [VArr [Wiring.num (ddt * (l * (1 - kap)))]; Wiring.num (dd * (1 + g) / 2)] in
+  let kws := [("beta_dsp", Wiring.num beta); ("kin_scaling", K (Wiring.dict [("lambda_mst", Wiring.num l); ("gamma_ppn", Wiring.num g)]));
+              ("sigma_v_sys_error", VNone); ("mu_intrinsic", VArr [Wiring.num (mu + dl + 5 * log10 (l * (1 - kap)))]);
+              ("gamma_pl", VInt 2); ("lambda_mst", Wiring.num l)] in
+  yields (Wiring.Gw D K) 100 (CFun src_LensLikelihood_log_likelihood_single) (Some (Wiring.lens_self ifu x y))
+    [Wiring.num ddt; Wiring.num dd; Wiring.num dl; Wiring.num beta; Wiring.dict (Wiring.lens_kws lam lifu al be g); Wiring.dict [];
+     Wiring.dict [("mu_sne", Wiring.num mu); ("sigma_sne", Wiring.num 0)]; VList [Wiring.dict [("mean", Wiring.num kap); ("sigma", Wiring.num 0)]]] [] rg cu
+    (Wiring.num (D args kws + 0)) (S (S cu)) [("log_likelihood", (args ++ map snd kws)%list)].
+Proof. intros D K ifu ddt dd dl beta lam lifu al be g x y kap mu rg cu l H. exact (Wiring.single_wiring D K ifu ddt dd dl beta lam lifu al be g x y kap mu rg cu H). Qed.
+Print Assumptions C10_scaling_reaches_the_data_likelihood.
